@@ -158,6 +158,9 @@ func replayPrune(c *core.Ctx, lfsBin string, b *behaviour, idx int) (*core.Viola
 
 func init() {
 	registry["C05"] = func(c *core.Ctx, replay string) {
+		if replayBehaviourOnly(c, replay, replayPrune, "model_checking") {
+			return
+		}
 		c.Level = "model_checking"
 		lfs := c.BuildLFS()
 		cfg, budget := "Prune_q.cfg", 330
